@@ -483,7 +483,23 @@ impl Exec for IovecExec {
                         so.tags.push("backfill_expected_panic".into());
                     }
                 }
+                let tok_len = tok.len();
+                // a stale token is legitimately accepted only when it is equal, by value, to a
+                // placeholder of this iovec that is still pending (same key and geometry)
+                let tok_repr = format!("{:?}", tok); // Backref is neither Clone nor PartialEq
+                let twin_pending = self.bref_owner[bi] == i
+                    && self.brefs.iter().enumerate().any(|(k, t)| {
+                        k != bi && self.bref_owner[k] == i && t.as_ref().map(|t| format!("{:?}", t)).as_deref() == Some(tok_repr.as_str())
+                            && self.shadows[i].cells.iter().any(|c| *c == Cell::Hole(k))
+                    });
+                let owned = self.bref_owner[bi] == i;
                 self.iovs[i].as_mut().unwrap().backfill_or_panic(tok, &bytes);
+                if owned && !twin_pending && !self.shadows[i].unknown {
+                    so.violations.push(format!("C03 v{} backfill_or_panic accepted a stale token (no such placeholder is pending)", i));
+                }
+                if tok_len != bytes.len() {
+                    so.violations.push(format!("C03 v{} backfill_or_panic accepted a {}-byte source for a {}-byte placeholder", i, bytes.len(), tok_len));
+                }
                 // it returned although the shadow had no matching placeholder (stale token whose
                 // key coincides with a newer placeholder): the shadow cannot follow
                 self.shadows[i].unknown = true;
@@ -708,6 +724,30 @@ impl Family for IovecFamily {
         Box::new(IovecExec::new())
     }
 
+    /// Hand-picked histories around the token checks of `backfill_or_panic` (C03 `no_panic_valid`,
+    /// `bad_token_panics`): sources shorter / longer than the placeholder, a stale token from
+    /// before a `clear` whose key coincides with a newer placeholder of different geometry, and the
+    /// same shapes used correctly.  The random generator reaches these only rarely.
+    fn enumerated(&self, _thorough: bool) -> Vec<Vec<String>> {
+        let c = |ops: &[&str]| ops.iter().map(|s| s.to_string()).collect::<Vec<String>>();
+        vec![
+            c(&["new", "register v0 0000", "backfill v0 b0 aa"]),
+            c(&["new", "register v0 0000", "backfill v0 b0 aabbcc"]),
+            c(&["new", "register v0 00", "backfill v0 b0 -"]),
+            c(&["new", "push_copy v0 0102", "register v0 000000", "push_copy v0 03", "backfill v0 b0 aabb"]),
+            c(&["new", "push_copy v0 01", "register v0 00", "clear v0", "register v0 0000", "backfill v0 b0 ff"]),
+            c(&["new", "push_copy v0 01", "register v0 00", "clear v0", "register v0 0000", "backfill v0 b1 eeff", "read v0 9"]),
+            c(&["new", "register v0 0000", "clear v0", "backfill v0 b0 aabb"]),
+            c(&["new", "register v0 0000", "pop v0"]),
+            c(&["new", "register v0 0000", "backfill v0 b0 aabb", "pop v0", "pop v0"]),
+            c(&["new", "push_borrowed v0 0708", "push_copy v0 010203", "register v0 0000", "push_copy v0 04",
+                "advance v0 1", "advance v0 5", "backfill v0 b0 0506", "read v0 3", "consume v0 9"]),
+            c(&["new", "register v0 0000", "push_borrowed v0 09", "register v0 0000", "register v0 00", "register v0 000000",
+                "backfill v0 b0 0101", "backfill v0 b1 0202", "backfill v0 b3 040404", "consume v0 9", "backfill v0 b2 03",
+                "read v0 100"]),
+        ]
+    }
+
     fn gen_case(&self, rng: &mut Rng, _idx: u64, thorough: bool) -> Vec<String> {
         let maxops = if thorough { 60 } else { 28 };
         let nops = rng.range(3, maxops) as usize;
@@ -755,7 +795,7 @@ impl Family for IovecFamily {
                     if !g.iov_alive.get(target).copied().unwrap_or(false) {
                         continue;
                     }
-                    let blen = if g.rng.chance(1, 40) { len + 1 } else { len };
+                    let blen = if g.rng.chance(1, 40) { if (len + b) % 2 == 0 && len >= 1 { len - 1 } else { len + 1 } } else { len };
                     let tag = g.rng.next() as u8;
                     let bytes: Vec<u8> = (0..blen).map(|k| tag ^ (k as u8)).collect();
                     g.ops.push(format!("backfill v{} b{} {}", target, b, to_hex(&bytes)));
